@@ -164,6 +164,23 @@ fn oracle(s: &ProgScene<X>, t: &Trace) -> Vec<Violation> {
                 }
             }
         }
+        // "finished and then stopped are called exactly once and the address resolves Ok" - in
+        // that order: whoever sees the address resolve finds both hooks done (C04 says so of every
+        // actor; here it is said of the stream loop, which has its own copy of the ending)
+        for o in &an.ops {
+            let (Some(Op::Await(_)), Some(end)) = (s.clients.get(o.c as usize).and_then(|c| c.ops.get(o.i as usize)), o.end) else { continue };
+            crate::check::oblige("address-resolves-ok");
+            if let Some(late) = t.log.iter().skip(end + 1).find_map(|e| match e.ev {
+                Ev::Enter { a: 0, cb: cb @ (Cb::Finished | Cb::Stopped), .. } | Ev::Exit { a: 0, cb: cb @ (Cb::Finished | Cb::Stopped), .. } => Some(cb),
+                _ => None,
+            }) {
+                out.push(Violation {
+                    clause: "address-resolves-ok",
+                    key: "C13/address-resolved-before-the-hooks-were-done".into(),
+                    detail: format!("client {}'s await of the address returned {:?} while the {late:?} hook was still to run or to finish", o.c, o.res),
+                });
+            }
+        }
     }
     // all items handled if the actor outlived the stream (nobody stopped or dropped it first)
     if x.closes && !stop_requested && term.is_some() && s.clients.iter().any(|c| c.ops.iter().any(|o| matches!(o, Op::Await(_)))) {
@@ -217,6 +234,8 @@ fn make_case_t(via: StreamVia, prefill: &[u32], prefill_close: bool, feeder: &[O
     items.extend(feeder.iter().filter_map(|o| if let Op::Feed(i) = o { Some(*i) } else { None }));
     let closes = prefill_close || feeder.iter().any(|o| matches!(o, Op::CloseStream));
     let mut role = RoleCfg { default_work: Work { yields, ..Work::default() }, ..RoleCfg::default() };
+    // (where the handlers take a while, so does the stopped() hook)
+    role.stopped_yields = yields;
     if progs.iter().flatten().any(|a| matches!(a, A::CtxPublish)) {
         // the stream-attached actor is a broker subscriber: the broker knows it, it does not hold it
         role.started_actions.push(Action::Subscribe { topic: 1 });
